@@ -285,6 +285,17 @@ static void xmat(Tgt& t, char orient, bool noal, int o, int shape, int a, int b,
 	if (orient == 'R') xmat2(t, SMr, noal, o, shape, a, b, k); else xmat2(t, SMc, noal, o, shape, a, b, k);
 }
 
+// prod(sparse matrix, dense vector) into a dense vector
+template <class E>
+static void spmv_apply(DVec& t, E const& e, bool noal, int o) {
+	if (noal) { switch (o) { case 0: noalias(t) = e; break; case 1: noalias(t) += e; break; default: noalias(t) -= e; break; } }
+	else { switch (o) { case 0: t = e; break; case 1: t += e; break; default: t -= e; break; } }
+}
+template <class M>
+static void spmv(DVec& t, M const& A, DVec const& v, bool tr, bool noal, int o) {
+	if (tr) spmv_apply(t, prod(trans(A), v), noal, o); else spmv_apply(t, prod(A, v), noal, o);
+}
+
 static int opcode(std::string const& o) { return o == "=" ? 0 : o == "+=" ? 1 : o == "-=" ? 2 : 3; }
 
 int main(int argc, char** argv) {
@@ -358,6 +369,11 @@ int main(int argc, char** argv) {
 			default: scal(DMc[t], opcode(o), c); break;
 			}
 			printm(t);
+		} else if (cmd == "SPMV") {
+			std::string form, o; int t, a, v, tr; is >> form >> o >> t >> a >> v >> tr;
+			if (mk[a] == 's') spmv(DV[t], SMr[a], DV[v], tr != 0, form == "noalias", opcode(o));
+			else spmv(DV[t], SMc[a], DV[v], tr != 0, form == "noalias", opcode(o));
+			printv(t);
 		} else if (cmd == "MFILL") {
 			int id; long seed; is >> id >> seed;
 			if (mk[id] == 'd') { for (std::size_t i = 0; i != DMr[id].size1(); ++i) for (std::size_t j = 0; j != DMr[id].size2(); ++j) DMr[id](i, j) = T((7 * i + 13 * j + seed) % 11) - 5; }
